@@ -231,6 +231,22 @@ def parent_of(k, i):
     return {s_.target: s_.center for s_ in k.segments}[i]
 
 
+def wrt_ssb_later(i, jd):
+    """body i with respect to the solar-system barycentre by chaining the kernel's segments (km, km/s)"""
+    from jplephem.spk import SPK
+    k = SPK.open("/repo/tests/data/jpl/de403_2000-2020.bsp")
+    try:
+        parent = {s_.target: s_.center for s_ in k.segments}
+        p, v = np.zeros(3), np.zeros(3)
+        while i != 0:
+            pp, vv = k[parent[i], i].compute_and_differentiate(jd)
+            p, v = p + pp, v + vv / 86400.0
+            i = parent[i]
+        return p, v
+    finally:
+        k.close()
+
+
 def _one_hour():
     from datetime import timedelta
     return timedelta(hours=1)
@@ -305,6 +321,26 @@ def _(c):
              and bool(np.array_equal(np.array(second, dtype=float), before)))
     got2 = np.asarray(jpl.get_orbit(name(a), date).copy(frame=name(b)), dtype=float)
     c.ensure("same_vector_again", bool(np.array_equal(got2, got)))
+    # "in either direction": the propagator of the inverse of a stored segment (the centre of A's segment seen from A -- the case the code's own comment gives: the
+    # Earth-Moon barycentre with respect to the Moon), built by the caller, returns minus the segment; and building / using it leaves the library's own chain as it was
+    pa_ = parent[a]
+    if pa_ != 0:
+        inv = jpl.JplPropagator(jpl.get_frame(name(pa_)).center, jpl.get_frame(name(a)))
+        iv = np.asarray(inv.propagate(date), dtype=float)
+        kk = SPK.open("/repo/tests/data/jpl/de403_2000-2020.bsp")
+        try:
+            pp, vv = kk[pa_, a].compute_and_differentiate(jd)
+        finally:
+            kk.close()
+        want_inv = -np.concatenate([np.asarray(pp), np.asarray(vv) / 86400.0]) * 1000
+        c.ensure("inverse_segment_is_minus_the_segment", bool(np.linalg.norm(iv[:3] - want_inv[:3]) <= 1e-3 + 1e-14 * np.linalg.norm(want_inv[:3])
+                                                              and np.linalg.norm(iv[3:] - want_inv[3:]) <= 1e-6 + 1e-12 * np.linalg.norm(want_inv[3:])))
+        got3 = np.asarray(jpl.get_orbit(name(a), date).copy(frame=name(b)), dtype=float)
+        par = np.asarray(jpl.get_orbit(name(pa_), date).copy(frame=name(b)), dtype=float) if pa_ != b else np.zeros(6)
+        pp_, vp_ = wrt_ssb_later(pa_, jd)
+        refp = np.concatenate([pp_ - pb, vp_ - vb]) * 1000
+        c.ensure("chain_unchanged_by_a_propagator_built_by_the_caller", bool(np.array_equal(got3, got))
+                 and bool(np.linalg.norm(par[:3] - refp[:3]) <= 1e-3 + 1e-14 * np.linalg.norm(refp[:3])))
     # an orbit of the body iterated over (start, stop, step) across the leap second of 2016-12-31 (UTC dates, real IERS tables): every yielded state is the segment
     # evaluated at the TDB reading of ITS date, i.e. what a direct request for that date returns
     from datetime import timedelta
